@@ -442,6 +442,10 @@ func (w *world) flushCounters(prop string) {
 		r.Counter("C02", "judged_"+k, int64(w.ownCounts[k]))
 	}
 	r.Counter(prop, "syncs", atomic.LoadInt64(&w.syncs))
+	if !w.noMonitors {
+		// every scenario is also a C17 case: its syncs ran under the cache-fingerprint oracle
+		r.Case("C17", "mcache-"+w.reportID(), atomic.LoadInt64(&w.cacheObjs) > 0, "mcache/"+w.reportID(), nil)
+	}
 }
 
 func inconclusive(t *testing.T, prop, id string, err error) {
